@@ -266,4 +266,60 @@ def newBMr64 (ps : List Nat) (capa : Nat) : Option (List Nat × List Nat) := do
   let ws ← bitmapOf ps capa
   pure (ws, indexRank64 ws)
 
+/-- `bitmap.SafeGet1(bm, i) uint64` (openacid/low bitmap/get.go), transcribed: 0 outside the words.  ASSUMED. -/
+def safeGet1 (bm : List Nat) (i : Nat) : Option Nat :=
+  let wordI := sar 32 i 6
+  let bitI := and i 63
+  if ltS 32 wordI 0 || leS 32 (conv 64 true 32 bm.length) wordI then some 0
+  else do
+    let w ← idxS 32 bm wordI
+    pure (and (shr w (conv 32 true 64 bitI)) 1)
+
+/-- `bitmap.Getw(bm, i, w) uint64` (bitmap/get.go), transcribed: `i *= w; (bm[i>>6] >> uint(i&63)) & Mask[w]`.  ASSUMED. -/
+def getw (bm : List Nat) (i w : Nat) : Option Nat := do
+  let i := mul 32 i w
+  let x ← idxS 32 bm (sar 32 i 6)
+  let m ← maskAt w
+  pure (and (shr x (conv 32 true 64 (and i 63))) m)
+
+/-- `binary.LittleEndian.Uint16 / Uint32 / Uint64 (b)` with the bounds check of the library
+    (`_ = b[n-1]`): panics when `b` is shorter than `n` bytes -/
+def uintLEChk (n : Nat) (b : List Nat) : Option Nat :=
+  if n ≤ b.length then some (uintLittleEndian n b) else none
+
+/-- `copy(x, src)` where `x` is the view `base[lo:hi]` (`0 ≤ lo ≤ hi ≤ len base`, checked when the view was
+    made): the first `min (hi-lo) (len src)` elements of `src` replace the elements of `base` from `lo` on -/
+def copyInto {α : Type} (base : List α) (lo hi : Nat) (src : List α) : List α :=
+  let n := min (hi - lo) src.length
+  base.take lo ++ src.take n ++ base.drop (lo + n)
+
+/-- `copy(dst, src)` into a fresh slice -/
+def copyPrefix {α : Type} (dst src : List α) : List α :=
+  let n := min dst.length src.length
+  src.take n ++ dst.drop n
+
+/-- `bits.TrailingZeros8(x)` as an `int`: 8 for 0 -/
+def trailingZeros8 (x : Nat) : Nat :=
+  match (List.range 8).find? (fun k => x.testBit k) with
+  | some k => k
+  | none => 8
+
+/-- `bitstr.New(s, fromBit, toBit) []byte` (openacid/low bitstr/bitstr.go), transcribed: the payload bytes
+    `s[fromBit>>3 : (toBit+7)>>3]` with the bits after `toBit` cleared, followed by the mask byte
+    `byte(bitmap.RMask[(8-toBit)&7])` (`RMask[k] = ^(1<<k - 1)`); `make`, the slice expression and the two
+    element assignments panic as in Go.  ASSUMED. -/
+def bitstrNew (s : List Nat) (fromBit toBit : Nat) : Option (List Nat) :=
+  if fromBit = toBit ∧ and fromBit 7 = 0 then some [255] else do
+  let fromByte := sar 32 fromBit 3
+  let toByte := sar 32 (add 32 toBit 7) 3
+  let l := sub 32 toByte fromByte
+  let bitStr ← makeS 32 (add 32 l 1)
+  let src ← sliceS 32 s (sar 32 fromBit 3) toByte
+  let bitStr := copyPrefix bitStr src
+  let k := and (sub 32 8 toBit) 7
+  let mask := conv 64 false 8 (2 ^ 64 - 2 ^ k)
+  let x ← idxS 32 bitStr (sub 32 l 1)
+  let bitStr ← setS 32 bitStr (sub 32 l 1) (and x mask)
+  setS 32 bitStr l mask
+
 end Generated.Go
